@@ -11,7 +11,7 @@ TRUSTED_BASE = [
     "correspondence: harness/src/ops_revoc.rs (Issuer + Presentation::create/verify with a revocation statement against the current registry value for every holder, every handle it can derive, after every operation), lib/c06.py",
 ]
 ASSUMPTIONS = ["q-SDH for the accumulator; unforgeability (C01) links the presented identifier to the signed one",
-               "the issuer publishes no batch coefficients, so public updates are available for single-identifier revocations only"]
+               "batch coefficients are computed by the harness with the issuer's key (Accumulator::update_assign), as a publishing issuer would"]
 
 
 def gen_ops(rng, nh, ln):
@@ -77,6 +77,8 @@ def explore(ctx):
         if r.get("r") != "ok":
             failures.append({"class": None, "witness": False, "text": f"harness failure {json.dumps(r)[:200]}", "case": case})
             continue
+        if r.get("shadow_ok") is False:
+            failures.append({"class": None, "witness": False, "text": "the accumulator recomputed with Accumulator::update_assign differs from the registry's value after a revocation", "case": case})
         mt = c13.parse_model(m)
         removed_at = [set(x["r"]) for x in mt]          # after each step (ids are +1)
         for si, (o, st, ms) in enumerate(zip(c["ops"], r["steps"], mt)):
@@ -92,6 +94,9 @@ def explore(ctx):
                 if kind in ("latest", "oldest"):
                     fs = p["from_step"]
                     exp = (removed_at[fs] == cur) and (h not in cur)
+                elif kind == "multi-batch-update":
+                    # one multi-batch update over every published epoch since the first handle: valid iff never revoked
+                    exp = h not in cur
                 elif kind == "public-update":
                     # tracked chain: valid iff it could follow every change of the value and the owner was never revoked
                     exp = p["tracked_to_current"] and (h not in cur)
@@ -119,7 +124,7 @@ def explore(ctx):
     return {
         "evaluations": n_pres,
         "distinct_nontrivial": len(distinct),
-        "rule": "cases = issuer histories over 2..4 holders (issue and blind issue, re-issue through either entry point, single and batch revocation incl. failing batches, refresh); after every operation every holder with a credential presents with a revocation statement against the current registry value using its latest handle, its oldest handle, the handle it maintained by single-step public updates, another holder's handle and the registry value itself; the verdict of Presentation::create + verify is compared with the verdict derived from the Coq registry model's trace; distinct by (suite, history prefix, holder, handle kind)",
+        "rule": "cases = issuer histories over 2..4 holders (issue and blind issue, re-issue through either entry point, single and batch revocation incl. failing batches, refresh); after every operation every holder with a credential presents with a revocation statement against the current registry value using its latest handle, its oldest handle, the handle it maintained by single-step public updates, its first handle brought up to date by one multi-batch update over the published batch coefficients, another holder's handle and the registry value itself; the verdict of Presentation::create + verify is compared with the verdict derived from the Coq registry model's trace; distinct by (suite, history prefix, holder, handle kind)",
         "samples": samples,
         "histograms": hist,
         "failures": failures,
